@@ -159,7 +159,15 @@ def main(argv):
     # compiles against tables left behind by a run on another tree; only their owners depend on them
     pre_infra = []
     import scan_sites
-    scan_sites.main()          # coq/gen/Sites.v, coq/gen/Shared.v  (owners: C09, C18)
+    subs, _sh = scan_sites.main()          # coq/gen/Sites.v, coq/gen/Shared.v  (owners: C09, C18)
+    unreviewed_shapes = []
+    if pid == "C09":
+        # access-shape inventory: not a proof obligation; shapes of unchecked accesses that the reviewed table
+        # (coq/Proofs_Sites.v) does not list make the check ESCALATE its search under the sanitizers
+        tab = open(os.path.join(pipeline.COQ, "Proofs_Sites.v")).read()
+        tab = tab[tab.index("Definition site_table"):]
+        reviewed = {(f, t.replace('""', '"')) for f, t in re.findall(r'\("((?:[^"]|"")*)", "((?:[^"]|"")*)", "', tab)}
+        unreviewed_shapes = [list(x) for x in subs if tuple(x) not in reviewed]
     rc, out, _ = pipeline.sh([sys.executable, os.path.join(VERIF, "gen", "ast2coq.py")], timeout=600)   # coq/gen/SupportGen.v (owner: C13)
     if rc != 0 and cfg.get("scan") == 'ast':
         pre_infra.append(("gen/ast2coq.py cannot translate Support.h any more (construct outside the translated fragment)", out[-3000:]))
@@ -231,6 +239,12 @@ def main(argv):
             replay_stage_only = True
     else:
         cases = cfg["gen"](seed, tier)
+        if unreviewed_shapes and tier == "quick":
+            # escalated search: the thorough tier's histories and placements, renamed so that ids stay unique
+            more = cfg["gen"](seed + 1, "thorough")
+            for c in more:
+                c.cid = "esc_" + c.cid
+            cases = cases + more
     # a kernel lemma of the generated file no longer goes through: search with cases directed at that kernel and size
     km = re.search(r'File "\./gen/(KernelGen_\w+\.v)", line (\d+)', plog or "")
     if km and not a.replay:
@@ -371,6 +385,7 @@ def main(argv):
             "theorems": thms, "assumptions": assumptions,
             "evaluations": total_lines * max(1, len(variants)) + extra_eval,
             "extra_stages": extra_notes,
+            "unreviewed_access_shapes": unreviewed_shapes,
             "distinct_nontrivial": len(distinct),
             "rule": cfg.get("rule", ""),
             "samples": samples + extra_samples,
@@ -387,6 +402,9 @@ def main(argv):
     write_evidence(pid, ev)
     for ln in known_lines:
         print(ln)
+    for f, t in unreviewed_shapes:
+        print(f"NOTE property={pid} unchecked access of a shape not in the reviewed table: {f}: {t}  (search escalated; "
+              f"{'a failing input was found' if any(sfx == '' for _, sfx in violations) else 'no failing input found'})")
     for path, suffix in violations:
         print(f"VIOLATION property={pid} replay={os.path.relpath(path, VERIF)}{suffix}")
     print(f"[{pid}] tier={tier} seed={seed} theorems={len(thms)} obligations={obligations} discharged={discharged} "
